@@ -160,6 +160,15 @@ pub fn assemble(base: usize, objs: &[(u64, Val)], trailer_mut: Option<&(String, 
         }
     }
 }
+/// byte-level text patch of a generated file (never through a lossy string conversion: the files contain binary data);
+/// a pattern that is not there is a harness bug and must be loud
+fn patch(buf: &[u8], from: &[u8], to: &[u8]) -> Vec<u8> {
+    let p = buf.windows(from.len()).position(|w| w == from).unwrap_or_else(|| panic!("C14 special: pattern `{}` not found in the generated file", String::from_utf8_lossy(from)));
+    let mut nb = buf[..p].to_vec();
+    nb.extend_from_slice(to);
+    nb.extend_from_slice(&buf[p + from.len()..]);
+    nb
+}
 fn find_last(buf: &[u8], pat: &[u8]) -> Option<usize> {
     (0..=buf.len().saturating_sub(pat.len())).rev().find(|&i| &buf[i..i + pat.len()] == pat)
 }
@@ -267,9 +276,7 @@ pub fn special_cases() -> Vec<(String, Vec<u8>)> {
             nb.extend_from_slice(&bytes[p + pat.len()..]);
             // offsets after the patch moved: startxref of the last section is found from the end, so fix it
             let delta = ins.len() - pat.len();
-            let s = String::from_utf8_lossy(&nb).to_string();
-            let fixed = s.replace(&format!("startxref\n{}\n%%EOF\n", second), &format!("startxref\n{}\n%%EOF\n", second + delta));
-            bytes = fixed.into_bytes();
+            bytes = patch(&nb, format!("startxref\n{}\n%%EOF\n", second).as_bytes(), format!("startxref\n{}\n%%EOF\n", second + delta).as_bytes());
         }
         let _ = first;
         v.push(("prev-mutual".into(), bytes));
@@ -342,18 +349,19 @@ pub fn special_cases() -> Vec<(String, Vec<u8>)> {
     ] {
         let mut fb = FileBuilder::new(b"");
         basic(&mut fb);
-        fb.finish_stream(&[("Root", Val::r(1))], &XrefStreamOpts::new(3));
+        let mut o = XrefStreamOpts::new(3);
+        o.w = Some([1, 2, 1]);
+        fb.finish_stream(&[("Root", Val::r(1))], &o);
         let bytes = fb.bytes();
-        let s = String::from_utf8_lossy(&bytes).to_string();
-        let mut s2 = s.replace("/W [1 1 1]", &format!("/W [{}]", w.iter().map(|x| x.to_string()).collect::<Vec<_>>().join(" ")));
+        let mut s2 = patch(&bytes, b"/W [1 2 1]", format!("/W [{}]", w.iter().map(|x| x.to_string()).collect::<Vec<_>>().join(" ")).as_bytes());
         if let Some(ix) = index {
-            s2 = s2.replace("/W [", &format!("/Index [{}] /W [", ix.iter().map(|x| x.to_string()).collect::<Vec<_>>().join(" ")));
+            s2 = patch(&s2, b"/W [", format!("/Index [{}] /W [", ix.iter().map(|x| x.to_string()).collect::<Vec<_>>().join(" ")).as_bytes());
         }
         if let Some(sz) = size {
-            s2 = s2.replace("/Size 4", &format!("/Size {}", sz));
+            s2 = patch(&s2, b"/Size 4", format!("/Size {}", sz).as_bytes());
         }
         // keep startxref pointing at the stream object (text before it is unchanged)
-        v.push((name.to_string(), s2.into_bytes()));
+        v.push((name.to_string(), s2));
     }
     // xref stream field widths: the full product over {0,1,2,3,4,8,9} with and without a huge /Index count
     for w0 in [0usize, 1, 2, 3, 4, 8, 9] {
@@ -362,13 +370,14 @@ pub fn special_cases() -> Vec<(String, Vec<u8>)> {
                 for huge_index in [false, true] {
                     let mut fb = FileBuilder::new(b"");
                     basic(&mut fb);
-                    fb.finish_stream(&[("Root", Val::r(1))], &XrefStreamOpts::new(3));
-                    let s = String::from_utf8_lossy(&fb.bytes()).to_string();
-                    let mut s2 = s.replace("/W [1 1 1]", &format!("/W [{} {} {}]", w0, w1, w2));
+                    let mut o = XrefStreamOpts::new(3);
+                    o.w = Some([1, 2, 1]);
+                    fb.finish_stream(&[("Root", Val::r(1))], &o);
+                    let mut s2 = patch(&fb.bytes(), b"/W [1 2 1]", format!("/W [{} {} {}]", w0, w1, w2).as_bytes());
                     if huge_index {
-                        s2 = s2.replace("/W [", "/Index [0 2147483647] /W [");
+                        s2 = patch(&s2, b"/W [", b"/Index [0 2147483647] /W [");
                     }
-                    v.push((format!("xref-W-{}-{}-{}{}", w0, w1, w2, if huge_index { "-Index-huge" } else { "" }), s2.into_bytes()));
+                    v.push((format!("xref-W-{}-{}-{}{}", w0, w1, w2, if huge_index { "-Index-huge" } else { "" }), s2));
                 }
             }
         }
@@ -431,6 +440,32 @@ pub fn special_cases() -> Vec<(String, Vec<u8>)> {
             }
         }
     }
+    // a long chain of /Parent references (each load nests in the previous one) that ends in an object of the wrong kind / a
+    // missing object / a cycle: failures must not be retried once per level (exponential work)
+    for (name, depth, end) in [("parent-chain-24-ends-in-wrong-type", 24usize, 0), ("parent-chain-24-ends-in-missing-object", 24, 1), ("parent-chain-40-ends-in-cycle", 40, 2), ("parent-chain-60-fine", 60, 3)] {
+        let mut fb = FileBuilder::new(b"");
+        fb.add(1, 0, &cat);
+        let first = 10u64;
+        let last = first + depth as u64 - 1;
+        fb.add(2, 0, &Val::dict(vec![("Type", Val::name("Pages")), ("Kids", Val::Array(vec![Val::r(3)])), ("Count", Val::Int(1))]));
+        fb.add(3, 0, &Val::dict(vec![("Type", Val::name("Page")), ("Parent", Val::r(last)), ("MediaBox", Val::ints(&[0, 0, 10, 10]))]));
+        for n in first..=last {
+            let parent = if n == first {
+                match end {
+                    0 => Val::r(4),
+                    1 => Val::r(999),
+                    2 => Val::r(last),
+                    _ => Val::r(2),
+                }
+            } else {
+                Val::r(n - 1)
+            };
+            fb.add(n, 0, &Val::dict(vec![("Type", Val::name("Pages")), ("Parent", parent), ("Kids", Val::Array(vec![])), ("Count", Val::Int(0))]));
+        }
+        fb.add(4, 0, &Val::Int(4));
+        fb.finish_table(&[("Root", Val::r(1))], Split::Runs);
+        v.push((name.to_string(), fb.bytes()));
+    }
     // page tree whose subtree counts add up beyond 32 bits
     {
         let mut fb = FileBuilder::new(b"");
@@ -448,8 +483,16 @@ pub fn special_cases() -> Vec<(String, Vec<u8>)> {
         let mut fb = FileBuilder::new(b"");
         basic(&mut fb);
         fb.finish_table(&[("Root", Val::r(1))], Split::Runs);
-        let s = String::from_utf8_lossy(&fb.bytes()).to_string();
-        v.push((name.to_string(), s.replacen(from, to, 1).into_bytes()));
+        let bytes = fb.bytes();
+        if name == "table-offset-huge" {
+            // the first in-use entry, whatever its offset is
+            let p = bytes.windows(8).position(|w| w == b" 00000 n").expect("in-use entry");
+            let mut nb = bytes.clone();
+            nb[p - 10..p].copy_from_slice(b"9999999999");
+            v.push((name.to_string(), nb));
+            continue;
+        }
+        v.push((name.to_string(), patch(&bytes, from.as_bytes(), to.as_bytes())));
     }
     // PostScript calculator operands
     for (name, prog) in [("ps-roll-negative", "{ 1 2 3 3 -1 roll }"), ("ps-roll-huge", "{ 1 2 3 3 2147483647 roll }"), ("ps-roll-n-huge", "{ 1 2 2147483647 1 roll }"), ("ps-index-huge", "{ 1 2147483647 index }"), ("ps-index-negative", "{ 1 -1 index }"), ("ps-pop-empty", "{ pop pop pop }"), ("ps-deep", "{ dup dup dup dup dup dup dup dup dup dup dup dup dup dup dup dup dup dup dup dup }"), ("ps-unbalanced", "{ { 1 }"), ("ps-empty", "")] {
@@ -627,7 +670,7 @@ pub fn run(tier: Tier, _seed: u64, tally: &mut Tally) -> CheckMeta {
     CheckMeta {
         prop: "C14",
         level: "fault_enumeration",
-        rule: format!("base documents {:?} (rich document + indirect /Length, functions of types 0/2/4, Separation/DeviceN/nested Indexed/ICC colour spaces, CCITT image, soft mask, embedded-files name tree, number tree with kids, field hierarchy); single faults: every one of {} reference occurrences re-pointed at every object of the document, an undefined number, 0 and a number beyond /Size, and every one of {} integer occurrences set to each of {{-1, 0, 1, 2, 3, 16, 2^31-1, 2^32-1, 2^64-1, -2^31, 65536}}; every one of {} string values emptied / halved / doubled; indirection faults: every one of {} value positions (whole objects included) replaced by a reference to a self-referencing object, a two-object reference cycle, the containing object, or a new object holding the old value; double faults: all pairs of re-wirings inside 9 structural fragments; {} special structures (/Prev loops, nesting 20..200000, literal strings with 400000 line continuations / nested parentheses / escapes, hex strings and comments of that size, object streams containing/extending themselves, xref stream /W (full product over 7 widths) /Index /Size, 8-byte offsets near 2^64 with and without a prefix, object stream header numbers near 2^63 and every pair of member offsets over 8 boundary values, page-tree counts summing beyond 2^32, classic table boundary values, PostScript roll/index/copy operands). Every case x {{strict, tolerant}} x {{cached, uncached}} is walked completely (C01 walker incl. scan and function application) in a worker process: no panic, no crash (stack overflow, abort, OOM under a 3 GiB address-space limit), no call exceeding 10 s. Distinct by file hash x configuration.", &BASES[..nbases], n_ref_fields, n_int_fields, n_strings, n_positions, specials.len()),
+        rule: format!("base documents {:?} (rich document + indirect /Length, functions of types 0/2/4, Separation/DeviceN/nested Indexed/ICC colour spaces, CCITT image, soft mask, embedded-files name tree, number tree with kids, field hierarchy); single faults: every one of {} reference occurrences re-pointed at every object of the document, an undefined number, 0 and a number beyond /Size, and every one of {} integer occurrences set to each of {{-1, 0, 1, 2, 3, 16, 2^31-1, 2^32-1, 2^64-1, -2^31, 65536}}; every one of {} string values emptied / halved / doubled; indirection faults: every one of {} value positions (whole objects included) replaced by a reference to a self-referencing object, a two-object reference cycle, the containing object, or a new object holding the old value; double faults: all pairs of re-wirings inside 9 structural fragments; {} special structures (/Prev loops, nesting 20..200000, literal strings with 400000 line continuations / nested parentheses / escapes, hex strings and comments of that size, object streams containing/extending themselves, xref stream /W (full product over 7 widths) /Index /Size, 8-byte offsets near 2^64 with and without a prefix, object stream header numbers near 2^63 and every pair of member offsets over 8 boundary values, page-tree counts summing beyond 2^32, /Parent chains of 24..60 levels ending in a wrong type / missing object / cycle, classic table boundary values, PostScript roll/index/copy operands). Every case x {{strict, tolerant}} x {{cached, uncached}} is walked completely (C01 walker incl. scan and function application) in a worker process: no panic, no crash (stack overflow, abort, OOM under a 3 GiB address-space limit), no call exceeding 10 s. Distinct by file hash x configuration.", &BASES[..nbases], n_ref_fields, n_int_fields, n_strings, n_positions, specials.len()),
         assumptions: vec!["time and memory proportionality is decided only against fixed generous thresholds (10 s, 3 GiB) - three orders of magnitude above the normal cost of these ~10 KB documents".into()],
         exhaustive: true,
         bounds: json!({"faults": 2}),
